@@ -52,7 +52,7 @@ func (ra *ResponseAdaptor) decompress(resp *httpprot.Response) (res string)
 func (ra *ResponseAdaptor) Handle(ctx *context.Context) (result string)
   flag allocates
   requires ra != nil && ra.spec != nil && ctx != nil
-  modifies gResp
+  modifies gResp, allof("elem<string>"), allof("ghost:.gzClosed"), allof("ghost:.gzFed"), allof("ghost:.limUnder"), allof("ghost:.rdRem"), allof("map<string,[]string>#card"), allof("map<string,[]string>#dom"), allof("map<string,[]string>#val#arr"), allof("map<string,[]string>#val#cap"), allof("map<string,[]string>#val#len"), allof("protocols/httpprot.Response.payload#arr"), allof("protocols/httpprot.Response.payload#cap"), allof("protocols/httpprot.Response.payload#len"), allof("protocols/httpprot.Response.stream")
   ensures replaced-body-is-well-framed: result == "" && gResp != 0 && len(ra.spec.Body) != 0 ==> wellFramed(ptr(gResp, "*httpprot.Response"))
   ghost at call[1] GetInputResponse: gResp := ifaceVal(resp)
 
